@@ -136,7 +136,7 @@ class Prop:
         flavours = ["dbg"] if ctx.quick() else ["dbg", "asan"]
         ctx.extra["flavours"] = flavours
         if replay:
-            exe = ctx.exe("monitor_drv", "dbg")
+            exe = mc.monitor_exe(ctx, "dbg")
             cases = mc.read_case_file(replay)
             for c, (ib, mb, bad) in zip(cases, r.run(exe, cases)):
                 for i, blk in enumerate(ib or []):
@@ -150,7 +150,7 @@ class Prop:
             # an obligation or tie no longer checks: the model interprets skeletons that are not the declared ones and is
             # no reference (two disagreements with it would end the run).  Look for a concrete failing input under the
             # oracle alone first: corpus, every listed configuration, random programs.
-            exe = ctx.exe("monitor_drv", "dbg")
+            exe = mc.monitor_exe(ctx, "dbg")
             r.searching = True
             try:
                 ctx.count("oracle_only_searches")
@@ -159,10 +159,10 @@ class Prop:
                     self.random_cases(ctx, r, exe, 2500, 6)
             finally:
                 r.searching = False
-            if ctx.stop():
-                return
+            if ctx.stop() or ctx.extra.get("anon_sync"):
+                return          # (fallback build of the harness: its traces do not compare with the model's)
         for fl in flavours:
-            exe = ctx.exe("monitor_drv", fl)
+            exe = mc.monitor_exe(ctx, fl)
             cases = mc.corpus_cases("C14")
             r.judge(exe, cases)
             ctx.count("corpus_cases", len(cases))
